@@ -42,6 +42,10 @@ def Sev.greater (cur s : Sev) : Sev := if s.toInt < cur.toInt then s else cur
 /-- `if( b ) err->GreaterSeverity( SEVERITY_WARNING )` -/
 def Sev.warnIf (err : Sev) (b : Bool) : Sev := if b then err.greater .warning else err
 
+/-- the sentinel test of the repaired readers: `if( sentinel ) err->GreaterSeverity( SEVERITY_WARNING )` (kept apart from
+    `warnIf` so that proofs can tell the two tests apart) -/
+def Sev.sentinelIf (err : Sev) (b : Bool) : Sev := err.warnIf b
+
 /-- what differs between source versions (regenerated into `Generated.lexCfg`) -/
 structure LexCfg where
   /-- `ReadInteger` reports an error when `in >> i` fails on non-blank input -/
@@ -549,14 +553,14 @@ def attrRead {F} (ops : FloatOps F) (cfg : LexCfg) (lookup : Int → RefLookup) 
     | .integer =>
       -- `readIntegerS`; the value needs no correction: `intValue` reads the sentinel as unset anyway
       let (v, s3, e) := readInteger cfg d s2 .null
-      .ok ⟨e.warnIf (intSentinel cfg v), intValue v, s3⟩
+      .ok ⟨e.sentinelIf (intSentinel cfg v), intValue v, s3⟩
     | .real =>
       match readReal ops cfg d s2 .null with
       | .overflow => .overflow
-      | .ok (v, s3, e) => .ok ⟨e.warnIf (cfg.realNullReported && realSentinel ops v), realValue ops v, s3⟩
+      | .ok (v, s3, e) => .ok ⟨e.sentinelIf (cfg.realNullReported && realSentinel ops v), realValue ops v, s3⟩
     | .number =>
       let (v, s3, e) := readNumber ops cfg d s2 .null
-      .ok ⟨e.warnIf (cfg.numberNullReported && realSentinel ops v), realValue ops v, s3⟩
+      .ok ⟨e.sentinelIf (cfg.numberNullReported && realSentinel ops v), realValue ops v, s3⟩
     | .string =>
       let (t, s3, e) := stringRead s2 .null
       let (s4, e2) := checkRemainingInput cfg d s3 e
